@@ -1138,6 +1138,15 @@ def _key_eq(s, a, b):
         return band(*fs)
     if is_num(a) and is_num(b) and not isinstance(a, bool) and not isinstance(b, bool):
         return eq(lift(a), lift(b))
+    if isinstance(a, Seq) and isinstance(b, Seq):
+        # equal iff same length and the same element at EVERY index: accepted only when that is syntactically evident at a generic index
+        j = var('key!j', 'I')
+        try:
+            la, lb = flatten(a.fn(j)), flatten(b.fn(j))
+        except Exception:
+            return None
+        if a.n is b.n and len(la) == len(lb) and all(x is y for x, y in zip(la, lb)): return TRUE
+        return None
     if isinstance(a, (T, B)) or isinstance(b, (T, B)): return None
     try: return TRUE if (type(a) is type(b) and a == b) else None
     except Exception: return None
@@ -1155,7 +1164,7 @@ def _dict_find(s, d, key, node=None):
 
 
 def _has_term(v):
-    if isinstance(v, (T, B)): return True
+    if isinstance(v, (T, B, Seq)): return True
     if isinstance(v, (tuple, list)): return any(_has_term(x) for x in v)
     return False
 
@@ -1544,7 +1553,7 @@ def _isinstance(s, x, c):
 BUILTINS = {'float': _float, 'int': _int, 'round': _round, 'getattr': _getattr, 'len': _len, 'range': _range, 'sum': _sum,
             'abs': _abs, 'max': _minmax(tmax, max), 'min': _minmax(tmin, min), 'list': _list, 'set': _set, 'copy': _copy,
             'filter': _filter, 'print': lambda s, *a, **k: None, 'str': lambda s, *a: (str(a[0]) if len(a) == 1 and isinstance(a[0], (int, str)) and not isinstance(a[0], bool) else Opaque("str")),
-            'tuple': lambda s, x: tuple(x.items) if isinstance(x, PList) else tuple(x),
+            'tuple': lambda s, x: tuple(x.items) if isinstance(x, PList) else (x if isinstance(x, Seq) else tuple(x)),          # a tuple of symbolic length: the element-wise list itself (never mutated)
             'dict': lambda s: PDict(),
             'hash': lambda s, *a: (s.contracts['__fixed_clock__'] if s.contracts.get('__fixed_clock__') is not None else Opaque("hash")), 'type': lambda s, x: _type_of(s, x), 'open': lambda s, *a, **k: _open(s, *a, **k)}
 
